@@ -45,7 +45,7 @@ impl Check for C17 {
     }
     fn runs(&self, tier: Tier) -> u64 {
         match tier {
-            Tier::Quick => 100_000,
+            Tier::Quick => 300_000,
             Tier::Thorough => 24 * 65_536 + 8_000_000,
         }
     }
